@@ -253,14 +253,17 @@ def subbuilder_request(repo, run, rule):
     else:
         run.ok(rule, fi, 'get_subbuilder with / without a current stage', 'RuntimeError outside preprocessing; SubBuilder(requester, self) inside')
     init = repo.func('SubBuilder.__init__')
-    ev = _fde(repo, stubs={'get_current_stage_idx', '__init__'}, stub=lambda name, recv, args, kwargs: 5 if name == 'get_current_stage_idx' else None)
+    inits = []
+    ev = _fde(repo, stubs={'get_current_stage_idx', '__init__'}, stub=lambda name, recv, args, kwargs: 5 if name == 'get_current_stage_idx' else inits.append(name))
     sub = Obj('sub', 'SubBuilder')
     parent = Obj('parent', 'Builder')
     try:
         r = ev.call(init, sub, ['inc'], parent)
     except Unsupported as e:
         raise AnalysisError('SubBuilder.__init__: finite-domain evaluator refused: %s' % e)
-    if r.raised or sub.f.get('requester') != ['inc'] or sub.f.get('parent') is not parent or sub.f.get('stage') != 5:
+    if not r.raised and len(inits) != 1:
+        run.violation(rule, init, 'SubBuilder.__init__', 'the Builder constructor runs %d times: a sub-builder without its own (empty) list of stages cannot collect the included documents' % len(inits))
+    elif r.raised or sub.f.get('requester') != ['inc'] or sub.f.get('parent') is not parent or sub.f.get('stage') != 5:
         run.violation(rule, init, 'SubBuilder.__init__', 'requester / parent / stage are %r / %r / %r, expected the arguments and the parent\'s current stage index' % (sub.f.get('requester'), sub.f.get('parent'), sub.f.get('stage')))
     else:
         run.ok(rule, init, 'SubBuilder remembers requester, parent and the parent\'s current stage')
@@ -1107,3 +1110,101 @@ def list_path_table(repo, run, rule):
         run.violation(rule, fi, 'NodePath.get_list_path', '; '.join(bad[:3]))
     else:
         run.ok(rule, fi, 'get_list_path evaluated on %d argument shapes' % (len(cases) + 1), 'empty / int / str (parsed) / sequence; components type-checked iff check_types')
+
+
+def suffix_constructors(repo, run, rule):
+    """the constructors of tags that carry a suffix (!bind:<f>[:<metadata>], !call:..., !path:<ref>[:<metadata>]) evaluated: the
+    suffix splits into the name and the optional encoded metadata (absent = none), more than one colon is rejected, and the name /
+    the decoded metadata reach the node constructor"""
+    n = 0
+    bad = []
+    for q, key, from_right in (('yaml._bind_constructor', 'func', False), ('yaml._call_constructor', 'func', False), ('yaml._path_constructor', 'ref_point', True)):
+        if q not in repo.functions:
+            continue
+        fi = repo.func(q)
+        n += 1
+        for suffix, want_name, want_md in (('pkg.f', 'pkg.f', None), ('pkg.mod.f:abcd', 'pkg.mod.f', 'abcd'), ('a:b:c', 'ValueError', None)):
+            made, dec = [], []
+
+            def stub(name, recv, a, k, made=made, dec=dec):
+                allargs = ([recv] if recv is not None else []) + list(a)
+                if name == '_decode_metadata':
+                    dec.append(allargs[0] if allargs else None)
+                    return {'decoded': allargs[0]} if allargs and allargs[0] else {}
+                if name == '_make_node':
+                    made.append(dict(k))
+                    return 'node'
+                raise AnalysisError('%s: unexpected stub %s' % (q, name))
+            ev = _fde(repo, stubs={'_make_node', '_decode_metadata'}, stub=stub)
+            try:
+                r = ev.call(fi, Obj('loader', 'AwesomeyamlLoader'), suffix, Obj('ynode', '<yaml node>'))
+            except Unsupported as e:
+                raise AnalysisError('%s: finite-domain evaluator refused: %s' % (q, e))
+            what = '%s with suffix %r' % (fi.name, suffix)
+            if want_name == 'ValueError':
+                if r.raised != 'ValueError':
+                    bad.append('%s: %s (expected ValueError)' % (what, r.raised or 'accepted'))
+                continue
+            if r.raised or len(made) != 1:
+                bad.append('%s: %s' % (what, 'raises %s' % r.raised if r.raised else 'node built %d times' % len(made)))
+                continue
+            kw = made[0].get('kwargs')
+            if isinstance(kw, tuple) and kw and kw[0] == 'dictdisplay':
+                flat = {}
+                for part in kw[1]:
+                    if part[0] == 'item':
+                        flat[part[1]] = part[2]
+                    elif isinstance(part[1], dict):
+                        flat.update(part[1])
+                kw = flat
+            if not isinstance(kw, dict) or kw.get(key) != want_name:
+                bad.append('%s: %s passed to the node is %r, expected %r' % (what, key, kw.get(key) if isinstance(kw, dict) else kw, want_name))
+            if dec != [want_md] and not (want_md is None and dec in ([None], [''], [])):
+                bad.append('%s: metadata decoded from %r, expected %r' % (what, dec, want_md))
+            if want_md and isinstance(kw, dict) and kw.get('decoded') != want_md:
+                bad.append('%s: the decoded metadata does not reach the node constructor' % what)
+    if n < 3:
+        raise AnalysisError('suffix constructors: only %d of _bind_constructor / _call_constructor / _path_constructor found' % n)
+    if bad:
+        run.violation(rule, repo.func('yaml._bind_constructor'), 'tag-suffix constructors', '; '.join(bad[:3]))
+    else:
+        run.ok(rule, repo.func('yaml._bind_constructor'), '!bind: / !call: / !path: constructors evaluated on 3 suffix shapes each', 'name[:metadata]; one colon at most; absent metadata = none')
+
+
+def decode_metadata_table(repo, run, rule):
+    """yaml._decode_metadata evaluated: nothing encoded gives no arguments; otherwise every merge-control field present in the
+    decoded mapping becomes a constructor argument of its own and the remaining entries are the user metadata"""
+    fi = repo.func('yaml._decode_metadata')
+    owner, e = repo.class_attr('ConfigNode', 'special_metadata_names')
+    if e is None:
+        raise AnalysisError('ConfigNode.special_metadata_names not found')
+    from ..srcmodel import fold_const
+    ok, specials = fold_const(repo, e, owner)
+    if not ok or not specials:
+        raise AnalysisError('ConfigNode.special_metadata_names is not a literal')
+    specials = list(specials)
+    bad = []
+    for stored in ({}, {'user': 1}, {specials[0]: 'S0', 'user': 1}, {s_: 'v_' + s_ for s_ in specials}, dict({s_: 'v_' + s_ for s_ in specials[:2]}, u1=1, u2=2)):
+        ev = _fde(repo)
+        fh = lambda s_: ('hex', s_)      # noqa: E731
+        fh._fde_ok = True
+        ld = lambda b, stored=stored: dict(stored)      # noqa: E731
+        ld._fde_ok = True
+        ev.extcalls.update({'bytes.fromhex': fh, 'pickle.loads': ld})
+        try:
+            r = ev.call(fi, 'abcd')
+        except Unsupported as e2:
+            raise AnalysisError('_decode_metadata: finite-domain evaluator refused: %s' % e2)
+        want = {k: v for k, v in stored.items() if k in specials}
+        want['metadata'] = {k: v for k, v in stored.items() if k not in specials}
+        if r.raised or r.ret != want:
+            bad.append('decoded mapping %r becomes %s, expected %r' % (stored, r.raised or r.ret, want))
+    for empty in ('', None):
+        ev = _fde(repo)
+        r = ev.call(fi, empty)
+        if r.raised or r.ret != {}:
+            bad.append('no metadata (%r) gives %s, expected {}' % (empty, r.raised or r.ret))
+    if bad:
+        run.violation(rule, fi, 'yaml._decode_metadata', '; '.join(bad[:2]))
+    else:
+        run.ok(rule, fi, '_decode_metadata evaluated on 7 inputs', 'merge-control fields become arguments, the rest is user metadata; nothing encoded -> {}')
